@@ -317,6 +317,15 @@ class Program:
                     base = ".".join(anchor + ([node.module] if node.module else []))
                 for a in node.names:
                     out[a.asname or a.name] = f"{base}.{a.name}" if base else a.name
+        # module-level aliases of imported things (`_is_lower_hex = util.is_lower_hex`) resolve like imports
+        defined = {s.name for s in m.tree.body if isinstance(s, (ast.FunctionDef, ast.AsyncFunctionDef, ast.ClassDef))}
+        for st in m.tree.body:
+            if isinstance(st, ast.Assign) and len(st.targets) == 1 and isinstance(st.targets[0], ast.Name) and st.targets[0].id not in defined:
+                v = st.value
+                if isinstance(v, ast.Attribute) and isinstance(v.value, ast.Name) and v.value.id in out and v.value.id not in defined:
+                    out.setdefault(st.targets[0].id, f"{out[v.value.id]}.{v.attr}")
+                elif isinstance(v, ast.Name) and v.id in out and v.id != st.targets[0].id:
+                    out.setdefault(st.targets[0].id, out[v.id])
         m._imports = out  # type: ignore[attr-defined]
         return out
 
